@@ -226,6 +226,7 @@ theorem KInv.step {bn : BN} {cfg : RCfg} (hdur : 0 < cfg.s.slotDur) {c : Core} (
       exact h.prePhase hp (Or.inl rfl) (fun hf => by simp [hg] at hf) (fun _ => rfl) rfl rfl rfl rfl rfl rfl rfl
     · exact h
   | adv d => exact h.frame rfl rfl rfl rfl rfl rfl rfl rfl rfl rfl
+  | back d => exact h.frame rfl rfl rfl rfl rfl rfl rfl rfl rfl rfl
   | stop => exact h.frame rfl rfl rfl rfl rfl rfl rfl rfl rfl rfl
   | regTimer i => exact h
   | regQuit i => exact h
@@ -495,6 +496,7 @@ theorem coreStep_pre_back (bn : BN) (cfg : RCfg) (c : Core) (e : Ev) (h : (coreS
       | syncing ans => cases hph : c.phase <;> simp_all [Phase.pre, coreStep]
       | wake => cases hph : c.phase <;> simp_all [Phase.pre, coreStep]
       | adv d => exact hp
+      | back d => exact hp
       | stop => exact hp
       | regTimer i => exact hp
       | regQuit i => exact hp
@@ -551,6 +553,7 @@ theorem coreStep_ticked_mono {bn : BN} {cfg : RCfg} {c : Core} (hk : KInv bn cfg
     · exact h
     · exact h
   | adv d => exact h
+  | back d => exact h
   | stop => exact h
   | regTimer i => exact h
   | regQuit i => exact h
@@ -628,6 +631,7 @@ theorem RInv.step {bn : BN} {cfg : RCfg} {x : St} (hk : KInv bn cfg x.core) (h :
     | genesis ans => exact h.keep hk _ (Or.inl rfl)
     | wake => exact h.keep hk _ (Or.inl rfl)
     | adv d => exact h.keep hk _ (Or.inl rfl)
+    | back d => exact h.keep hk _ (Or.inl rfl)
     | tick => exact h.keep hk _ (Or.inl rfl)
     | take q => exact h.keep hk _ (Or.inl rfl)
     | stop => exact h.keep hk _ (Or.inl rfl)
@@ -801,6 +805,7 @@ theorem reach_emitted_sorted {bn : BN} {cfg : RCfg} (hdur : 0 < cfg.s.slotDur) {
       · exact hc
       · exact hc
     | adv d => exact hc
+    | back d => exact hc
     | stop => exact hc
     | regTimer i => exact hc
     | regQuit i => exact hc
